@@ -6,6 +6,7 @@ import (
 	"testing"
 	"time"
 
+	"go.flow.arcalot.io/engine/zverif/harness"
 	"go.flow.arcalot.io/engine/zverif/ir"
 	"go.flow.arcalot.io/engine/zverif/simrt"
 	"go.flow.arcalot.io/engine/zverif/world"
@@ -89,5 +90,31 @@ func TestHuntDisabledStepStall(t *testing.T) {
 	}
 	for k, n := range hits {
 		fmt.Println(n, k)
+	}
+}
+
+// TestHuntStageObject (VERIF_HUNT=3): the whole outputs stage object of a two-output step that ends in its
+// error output is returned by the workflow.
+func TestHuntStageObject(t *testing.T) {
+	if os.Getenv("VERIF_HUNT") != "3" {
+		t.Skip()
+	}
+	LoadSites(os.Getenv("VERIF_SITES"))
+	p := &ir.Program{Subs: map[string]*ir.Program{}}
+	p.Steps = []*ir.Step{
+		{ID: "s0", Kind: "plugin", Simple: true, In: []ir.Field{ir.F("a", ir.Lit(int64(1))), ir.F("mode", ir.Lit("err"))}},
+		{ID: "s1", Kind: "plugin", In: []ir.Field{ir.F("a", ir.Lit(int64(2)))}},
+	}
+	p.Outputs = []ir.Output{{ID: "success", E: ir.Obj(ir.F("last", ir.StepRef("s1", "outputs", "success", "a")), ir.F("st", ir.StepRef("s0", "outputs", "")))}}
+	c := &Case{Property: "C08", Profile: "hunt", Class: "S1", Program: p, Doc: ir.Doc{"n": int64(1), "tag": "t", "flag": false}}
+	c.Policy = simrt.PolicySpec{Kind: "fifo", Seed: 1}
+	r := RunCase(t, c, false)
+	fmt.Println(r.PrepareErr, harness.JSON(r.Clients[0]))
+	v, err := NewView(c, r)
+	if err != nil {
+		t.Fatal(err)
+	}
+	for _, x := range OracleTypes("C08", v) {
+		fmt.Println("VIOL", x.Rule, x.Shape, x.Msg)
 	}
 }
